@@ -356,6 +356,8 @@ def materialise(case: dict, root: str) -> T.Tuple[str, T.Optional[dict]]:
     if typ == 'collision':
         files, desc = gen_c04.generate_collision(case['seed'], case['kind'])
         runner.write_tree(src, files)
+        for link, target in desc.get('symlinks', {}).items():
+            os.symlink(target, os.path.join(src, link))
         return src, desc
     if typ == 'probe':
         files, desc = PROBES[case['name']]()
@@ -703,7 +705,45 @@ def probe_optional_subprojects() -> T.Tuple[dict, dict]:
                    'failed_subprojects': failed}
 
 
+def probe_mixed_languages() -> T.Tuple[dict, dict]:
+    """Targets that get a language's compiler only through what they link to (process_compilers_late): C and C++
+    libraries between Fortran libraries and Fortran / C / C++ programs, through link_with, link_whole, static,
+    shared and both_libraries, with Fortran modules used across targets (module scanning / dyndep statements).
+    Skipped (counted) when the sandbox has no Fortran or C++ compiler."""
+    langs = gen_c04.available_languages()
+    if 'fortran' not in langs or 'cpp' not in langs:
+        return {'meson.build': _HEAD}, {'targets': [], 'tests': [], 'features': ['probe:mixed-languages-unavailable']}
+    fmod = ("module {m}\n{u}  implicit none\ncontains\n  integer function {m}_f()\n    {m}_f = 1\n"
+            "  end function {m}_f\nend module {m}\n")
+    files = {
+        'fbase.f90': fmod.format(m='fbase', u=''),
+        'fbase2.f90': fmod.format(m='fbase2', u='  use fbase\n'),
+        'ftop.f90': fmod.format(m='ftop', u='  use fbase\n'),
+        'mid.c': 'int mid(void) { return 0; }\n', 'mid2.c': 'int mid2(void) { return 0; }\n',
+        'midpp.cpp': 'extern "C" int midpp(void) { return 0; }\n',
+        'main.f90': 'program main\n  use fbase\n  implicit none\n  print *, fbase_f()\nend program main\n',
+        'main2.f90': 'program main2\n  use ftop\n  implicit none\n  print *, ftop_f()\nend program main2\n',
+        'm.c': _MAIN, 'mpp.cpp': 'int main() { return 0; }\n',
+        'meson.build': "project('c04 probe', 'c', 'cpp', 'fortran', meson_version: '>=1.0.0')\n"
+        "fbase = static_library('fbase', 'fbase.f90', 'fbase2.f90')\n"
+        "fshared = shared_library('fshared', 'fbase.f90')\n"
+        "mid = static_library('mid', 'mid.c', link_with: fbase)\n"
+        "mid_sh = shared_library('mid sh', 'mid.c', link_with: fshared, build_by_default: false)\n"
+        "mid_whole = static_library('midwhole', 'mid2.c', link_whole: fbase)\n"
+        "mid_both = both_libraries('midboth', 'mid.c', link_with: fbase)\n"
+        "midpp = library('midpp', 'midpp.cpp', link_with: mid)\n"
+        "ftop = library('ftop', 'ftop.f90', link_with: [mid, fbase])\n"
+        "executable('fmain', 'main.f90', link_with: mid)\n"
+        "executable('fmain pp', 'main.f90', link_with: [midpp, mid_both])\n"
+        "executable('fmain2', 'main2.f90', link_with: [ftop, mid_whole, mid_sh])\n"
+        "executable('cmain', 'm.c', link_with: [mid, midpp])\n"
+        "e = executable('cppmain', 'mpp.cpp', link_with: [ftop, mid_sh], build_by_default: false)\n"
+        "test('mixed', e)\n"}
+    return files, {'targets': [], 'tests': [], 'features': ['probe:mixed-languages']}
+
+
 PROBES: T.Dict[str, T.Callable[[], T.Tuple[dict, dict]]] = {
+    'mixed-languages': probe_mixed_languages,
     'optional-subprojects': probe_optional_subprojects,
     'same-name-prereqs': probe_same_name_prereqs,
     'unity-counts': probe_unity_counts,
@@ -715,9 +755,16 @@ PROBES: T.Dict[str, T.Callable[[], T.Tuple[dict, dict]]] = {
 
 
 # ------------------------------------------------------------------------------------------------ planning
-def corpus_projects() -> T.List[str]:
+CORPUS_DIRS_QUICK = ('common', 'unit', 'fortran', 'linuxlike', 'native')
+CORPUS_DIRS_ALL = CORPUS_DIRS_QUICK + ('rust', 'java', 'cython', 'nasm', 'python', 'python3', 'keyval', 'vala', 'd',
+                                       'objc', 'objcpp', 'cuda', 'csharp', 'swift', 'cmake', 'wasm', 'frameworks')
+
+
+def corpus_projects(dirs: T.Sequence[str] = CORPUS_DIRS_ALL) -> T.List[str]:
+    """Every test project of the repository corpus that is meant to configure (not failing*, not other OSes); a
+    project that does not configure here (missing compiler / tool) is skipped and counted."""
     res = []
-    for sub in ('common', 'unit'):
+    for sub in dirs:
         d = os.path.join(common.REPO, 'test cases', sub)
         try:
             names = sorted(os.listdir(d))
@@ -770,10 +817,11 @@ def plan(chk: common.Check) -> T.List[dict]:
                 cases.append({'type': 'probe', 'name': name, 'cfg': {'layout': l, 'unity': u, 'default_library': d},
                               'rsp': rsp})
     # corpus
-    projs = corpus_projects()
+    projs = corpus_projects(CORPUS_DIRS_QUICK if quick else CORPUS_DIRS_ALL)
     if quick:
         rng.shuffle(projs)
-        projs = projs[:34]
+        others = [p for p in projs if not p.startswith(('common/', 'unit/'))]
+        projs = [p for p in projs if p.startswith(('common/', 'unit/'))][:30] + others[:8]
     for rel in projs:
         l, u, d = rng.choice(CELLS) if not quick else rng.choice([('mirror', 'off', 'shared'), ('mirror', 'on', 'static'),
                                                                   ('flat', 'off', 'both'), ('mirror', 'subprojects', 'both')])
